@@ -353,6 +353,10 @@ class Env(object):
             self.run.fault('disable_in_body')
             self.disabled_in_body = True
             self.recorder.disable_recording()
+        if fault == 'discard_in_body_handler_raises' and self.recorder is not None:
+            # the body discards the recording (as another thread might, at that moment) and then the data handler fails too
+            self.run.fault('discard_in_body')
+            self.recorder.discard_recording()
         if fault in ('discard_in_body', 'force_in_body') and self.recorder is not None:
             self.run.fault(fault)
             if fault == 'discard_in_body':
@@ -422,6 +426,10 @@ class Env(object):
             self.run.fault('disable_in_body')
             self.disabled_in_body = True
             self.recorder.disable_recording()
+        if fault == 'discard_in_body_handler_raises' and self.recorder is not None:
+            # the body discards the recording (as another thread might, at that moment) and then the data handler fails too
+            self.run.fault('discard_in_body')
+            self.recorder.discard_recording()
         if fault in ('discard_in_body', 'force_in_body') and self.recorder is not None:
             self.run.fault(fault)
             if fault == 'discard_in_body':
@@ -448,7 +456,7 @@ class RevInputHandler(InputInterceptionDataHandler):
 
     def prepare_input_for_recording(self, interception_key, result, args, kwargs):
         call = self.env.cur() or {}
-        if call.get('fault') in ('handler_raises', 'disable_in_body_handler_raises'):
+        if call.get('fault') in ('handler_raises', 'disable_in_body_handler_raises', 'discard_in_body_handler_raises'):
             self.env.run.fault('handler_raises')
             raise RuntimeError('injected: input handler fails')
         return {'wrapped': result, 'nargs': len(args)}
@@ -473,7 +481,7 @@ class OutHandler(OutputInterceptionDataHandler):
             self.env.run.fault('disable_in_handler')
             self.env.disabled_in_body = True
             self.env.recorder.disable_recording()
-        if call.get('fault') in ('handler_raises', 'disable_in_body_handler_raises'):
+        if call.get('fault') in ('handler_raises', 'disable_in_body_handler_raises', 'discard_in_body_handler_raises'):
             self.env.run.fault('handler_raises')
             raise RuntimeError('injected: output handler fails')
         return {'hargs': list(args), 'hkwargs': kwargs}
@@ -1185,7 +1193,7 @@ def place_fault(spec, st, kind, run):
         lst.insert(n, {'discard_before': ['discard'], 'force_before': ['force'], 'raise_before': ['raise', D.ErrB],
                        'interrupt_before': ['interrupt']}[kind])
         return kind
-    if kind in ('handler_raises', 'disable_in_body_handler_raises', 'disable_in_handler'):
+    if kind in ('handler_raises', 'disable_in_body_handler_raises', 'disable_in_handler', 'discard_in_body_handler_raises'):
         (spec.inputs if st[0] == 'in' else spec.outputs)[st[1]].handler = True
     if kind == 'resolver_raises':
         ispec = spec.inputs[st[1]]
